@@ -112,7 +112,9 @@ type c09World struct {
 	scheme   string
 	n, q     int
 	idset    string
-	ids      []uint64              // replica ids: members at index 0..n-1, the outsider at index n
+	ids      []uint64 // replica ids: members at index 0..n-1, the outsider at index n
+	tcs      map[uint64]hotstuff.TimeoutCert
+	midTC    uint64                // > 0: asynchronous bursts: the high TC moves to this view in the middle of the burst
 	startN   int                   // > 0: the collector is created knowing only the first startN members (growth stimulus 'M' adds the rest)
 	cfgs     []*core.RuntimeConfig // index i-1 for member index i, plus the outsider at index n
 	bases    []crypto.Base
@@ -176,7 +178,7 @@ func (w *c09World) isMember(lab uint64) bool {
 }
 
 func c09NewWorld(v *verifOut, scheme string, n int, idset string) *c09World {
-	w := &c09World{v: v, scheme: scheme, n: n, idset: idset, ids: c09IDs(idset, n), blocks: map[string]*c09Block{}, byHash: map[hotstuff.Hash]*c09Block{},
+	w := &c09World{v: v, scheme: scheme, n: n, idset: idset, ids: c09IDs(idset, n), tcs: map[uint64]hotstuff.TimeoutCert{}, blocks: map[string]*c09Block{}, byHash: map[hotstuff.Hash]*c09Block{},
 		reg: map[string]c09Real{}, logger: logging.NewWithDest(io.Discard, "c09")}
 	// n members and one outsider (id n+1) who knows everybody but is known to nobody
 	for i := 1; i <= n+1; i++ {
@@ -228,6 +230,32 @@ func c09NewWorld(v *verifOut, scheme string, n int, idset string) *c09World {
 	}
 	w.verifier = cert.NewAuthority(w.cfgs[vi], vbc, vb)
 	return w
+}
+
+// tc returns a genuine timeout certificate for the view: a quorum of members signed View.ToBytes()
+func (w *c09World) tc(view uint64) hotstuff.TimeoutCert {
+	if t, ok := w.tcs[view]; ok {
+		return t
+	}
+	var sigs []hotstuff.QuorumSignature
+	for i := 0; i < w.q && i < w.n; i++ {
+		s, err := w.bases[i].Sign(hotstuff.View(view).ToBytes())
+		if err != nil {
+			panic(err)
+		}
+		sigs = append(sigs, s)
+	}
+	sig := sigs[0]
+	if len(sigs) >= 2 {
+		s, err := w.bases[0].Combine(sigs...)
+		if err != nil {
+			panic(err)
+		}
+		sig = s
+	}
+	t := hotstuff.NewTimeoutCert(sig, hotstuff.View(view))
+	w.tcs[view] = t
+	return t
 }
 
 func (w *c09World) addBlock(name string, b *hotstuff.Block) {
@@ -380,9 +408,10 @@ func (w *c09World) hostile() []*c09Vote {
 // running the implementation
 
 type c09Ev struct {
-	kind byte // 'V' vote, 'P' proposal, 'H' high-QC move
+	kind byte // 'V' vote, 'P' proposal, 'H' high-QC move, 'T' high-TC move, 'M' membership growth
 	vote *c09Vote
 	blk  *c09Block
+	view uint64 // 'T': the view of the timeout certificate
 }
 
 func (e c09Ev) term() string {
@@ -393,6 +422,8 @@ func (e c09Ev) term() string {
 		return fmt.Sprintf("(P %s %s)", gN(uint64(e.blk.id)), gN(e.blk.view))
 	case 'M':
 		return ""
+	case 'T':
+		return fmt.Sprintf("(TC %s)", gN(e.view))
 	default:
 		return fmt.Sprintf("(H %s %s)", gN(uint64(e.blk.id)), gN(e.blk.view))
 	}
@@ -405,6 +436,8 @@ func (e c09Ev) short() string {
 		return "propose " + e.blk.name
 	case 'M':
 		return "membership grows to the full configuration"
+	case 'T':
+		return fmt.Sprintf("highTC->view %d", e.view)
 	default:
 		return "highQC->" + e.blk.name
 	}
@@ -551,6 +584,8 @@ func (r *c09Run) deliver(e c09Ev) {
 			r.addMember(j)
 		}
 		r.grown = r.w.n
+	case 'T': // the synchronizer records a (genuine) timeout certificate: ViewStates.UpdateHighTC
+		r.vs.UpdateHighTC(r.w.tc(e.view))
 	default:
 		r.bc.Store(e.blk.blk)
 		_, _ = r.vs.UpdateHighQC(hotstuff.NewQuorumCert(nil, e.blk.blk.View(), e.blk.blk.Hash()))
@@ -840,6 +875,9 @@ func (w *c09World) asyncCase(s *verifStream, store0, remote []*c09Block, setup [
 	base := runtime.NumGoroutine()
 	r.cur = nil
 	for i, x := range burst {
+		if w.midTC > 0 && i == len(burst)/2 {
+			r.vs.UpdateHighTC(w.tc(w.midTC))
+		}
 		if i == latePos {
 			r.el.AddEvent(hotstuff.ProposeMsg{ID: w.blocks["B"].blk.Proposer(), Block: w.blocks["B"].blk})
 		}
@@ -856,6 +894,10 @@ func (w *c09World) asyncCase(s *verifStream, store0, remote []*c09Block, setup [
 	}
 	if latePos >= 0 {
 		setup = append(append([]c09Ev{}, setup...), c09Ev{kind: 'P', blk: w.blocks["B"]})
+	}
+	if w.midTC > 0 { // the kernel sees it as a setup stimulus (it changes nothing in the model)
+		setup = append(append([]c09Ev{}, setup...), c09Ev{kind: 'T', view: w.midTC})
+		w.v.Count("async-high-tc-mid-burst")
 	}
 	quiet := 0
 	deadline := time.Now().Add(20 * time.Second)
@@ -1078,6 +1120,7 @@ func TestVerifC09(t *testing.T) {
 	V := func(x *c09Vote) c09Ev { return c09Ev{kind: 'V', vote: x} }
 	P := func(b *c09Block) c09Ev { return c09Ev{kind: 'P', blk: b} }
 	Hi := func(b *c09Block) c09Ev { return c09Ev{kind: 'H', blk: b} }
+	TC := func(view uint64) c09Ev { return c09Ev{kind: 'T', view: view} }
 
 	// (a) exhaustive small scope: all arrival orders of the honest votes mixed with each hostile kind
 	for _, n := range []int{4, 7} {
@@ -1200,6 +1243,35 @@ func TestVerifC09(t *testing.T) {
 		}
 	}
 
+	// (a4) ViewStates changes between the votes: the high TC moves to the block's view / a later / an earlier
+	// view, at every position of the vote sequence, alone or together with a high-QC move to another (older)
+	// block, a hostile vote, or the block's own late arrival. Only the high QC bounds which votes still count.
+	{
+		n := 4
+		w := world(crypto.NameECDSA, n)
+		B, D := w.blocks["B"], w.blocks["D"]
+		base := []*c09Block{w.blocks["G"], B, w.blocks["C"], w.blocks["O"], w.blocks["L3"]}
+		noB := []*c09Block{w.blocks["G"], w.blocks["C"], w.blocks["O"], w.blocks["L3"]}
+		hon := []*c09Vote{w.honest(1, B), w.honest(2, B), w.honest(3, B)}
+		garbage := w.vote("garbage", B, w.garbage(w.ids[1]))
+		for _, tv := range []uint64{B.view, 9, 2} {
+			for yi, y := range []c09Ev{Hi(D), V(garbage), P(B)} {
+				store := base
+				if yi == 2 {
+					store = noB
+				}
+				items := []c09Ev{V(hon[0]), V(hon[1]), V(hon[2]), TC(tv), y}
+				c09Perms(len(items), func(p []int) {
+					evs := []c09Ev{Hi(w.blocks["L3"])}
+					for _, i := range p {
+						evs = append(evs, items[i])
+					}
+					w.syncCase(sPerm, "perm-high-tc", store, []*c09Block{w.blocks["R"]}, evs)
+				})
+			}
+		}
+	}
+
 	// (b) seeded random stream: every scheme, n in {4,7}, several hostile votes, duplicates after the
 	// certificate, foreign proposals, fetches, high-QC moves below and above the block
 	schemes := []string{crypto.NameECDSA, crypto.NameEDDSA, crypto.NameBLS12}
@@ -1266,6 +1338,12 @@ func TestVerifC09(t *testing.T) {
 			pool = append(pool, P(w.blocks["C"]))
 		case 3:
 			pool = append(pool, Hi(w.blocks["D"]))
+		}
+		if v.rng.Intn(3) == 0 { // the high TC moves (earlier / the block's / later views), possibly twice
+			pool = append(pool, TC([]uint64{2, 5, 6, 9}[v.rng.Intn(4)]))
+			if v.rng.Intn(3) == 0 {
+				pool = append(pool, TC([]uint64{4, 5, 7}[v.rng.Intn(3)]))
+			}
 		}
 		v.rng.Shuffle(len(pool), func(i, j int) { pool[i], pool[j] = pool[j], pool[i] })
 		evs = append(evs, pool...)
@@ -1436,7 +1514,15 @@ func TestVerifC09(t *testing.T) {
 		if late {
 			latePos = v.rng.Intn(len(burst) + 1)
 		}
+		// the high TC: already at / beyond the block's view before the burst, or moving there in its middle
+		switch v.rng.Intn(4) {
+		case 0:
+			setup = append(setup, TC([]uint64{5, 9, 2}[v.rng.Intn(3)]))
+		case 1:
+			w.midTC = []uint64{5, 9}[v.rng.Intn(2)]
+		}
 		w.asyncCase(sAsync, store0, []*c09Block{w.blocks["R"]}, setup, burst, latePos, v.rng.Intn(2) == 0)
+		w.midTC = 0
 	}
 
 	v.Close("one evaluation = one stimulus sequence run on a real VotingMachine (event loop drained after every stimulus; or one asynchronous burst); non-trivial = a certificate was emitted or at least three different kinds of stimuli/hostile votes occur")
